@@ -589,4 +589,19 @@ def _reads_state(v: ast.AST, S: str) -> bool:
     return any(isinstance(x, ast.Name) and x.id == S for x in ast.walk(v))
 
 
-RULES = [("C04.R1", r1), ("C04.R2", r2), ("C04.R3", r3), ("C04.R4", r4), ("C04.R5", r5), ("C04.R6", r6)]
+
+def f1(ctx):
+    """generic same-name parameter forwarding over this property's modules (see shared.generic_forwarding)."""
+    from . import shared as _sh
+    _sh.generic_forwarding(ctx, "C04.F1", _sh.PROPERTY_MODULES["C04"])
+
+
+
+def s1(ctx):
+    """shared mechanisms: rows are removed by position in every encoder (= C06.R2/R3); factor evaluation edits names in a private layer, so state keys do not depend on evaluation history (= C18.R4)"""
+    from .shared import relabel
+    from . import c06, c18
+    relabel(ctx, "C04.S1", c06.r2, c06.r3, c18.r4)
+
+
+RULES = [("C04.R1", r1), ("C04.R2", r2), ("C04.R3", r3), ("C04.R4", r4), ("C04.R5", r5), ("C04.R6", r6), ("C04.F1", f1), ("C04.S1", s1)]
